@@ -337,6 +337,9 @@ class World:
         self.obj = {"t": None, "inv": None, "cp": None}
         self.rec = {"t": None, "inv": None, "cp": None}
         self.last_mut = "init"
+        # whether update() ran on the object since it was created: until then a predicted-parameter buffer `p` may be
+        # uninitialised memory (torch.empty in ParametricTransform.__init__ / link_), which must never enter a hash
+        self.upd = {"t": False, "inv": False, "cp": False}
         self.build()
 
     # -- construction ------------------------------------------------------
@@ -580,7 +583,8 @@ def fingerprint(W: World):
     def tens(t):
         return (type(t).__name__ == "Parameter", bool(t.requires_grad), h64(tensor_bytes(t)), talias(t), alias(t))
 
-    def walk(o, label):
+    def walk(o, label, who=None):
+        who = label if who is None else who
         first = ("o", id(o)) not in ids
         a = alias(o)
         out.append((label, type(o).__name__, a))
@@ -590,7 +594,7 @@ def fingerprint(W: World):
             return
         if isinstance(o, torch.nn.ModuleDict):
             for k, v in o.items():
-                walk(v, "md:" + k)
+                walk(v, "md:" + k, who)
             return
         d = o.__dict__
         if "_grid" in d:
@@ -606,12 +610,15 @@ def fingerprint(W: World):
         for k, v in sorted(d.get("_buffers", {}).items()):
             if k.startswith("kernel_stride_"):
                 continue
+            if k == "p" and v is not None and not W.upd.get(who, False):
+                out.append(("B:p", "not-updated-yet", tuple(v.shape), talias(v), alias(v)))
+                continue
             out.append(("B:" + k, None if v is None else tens(v)))
         for k, v in sorted(d.get("_modules", {}).items()):
             if v is None:
                 out.append(("M:" + k, None))
             else:
-                walk(v, "M:" + k)
+                walk(v, "M:" + k, who)
 
     for who in ("t", "inv", "cp"):
         o = W.obj[who]
@@ -619,6 +626,7 @@ def fingerprint(W: World):
             out.append((who, None))
         else:
             walk(o, who)
+    out.append(("updated", tuple(sorted(W.upd.items()))))
     recs = tuple(None if W.rec[w] is None else W.rec[w].describe() for w in ("t", "inv", "cp"))
     # aliasing of reference boxes
     bids = {}
@@ -964,6 +972,7 @@ class Stepper:
         if name == "update":
             o, r = W.obj[arg], W.rec[arg]
             self.call_impl(op, o.update)
+            W.upd[arg] = True
             self.define(r)
             if arg == "t":
                 rt.p_fresh = True
@@ -1150,8 +1159,10 @@ class Stepper:
                 self.undef(f"call@{who}:{rg}")
                 if st == "raises":
                     raise Stop()
+                W.upd[who] = True
             else:
                 y = self.call_impl(op, o, x)
+                W.upd[who] = True
                 if not isinstance(y, torch.Tensor) or tuple(y.shape) != tuple(x.shape):
                     self.bad(op, "shape", f"call returned {type(y).__name__} {tuple(getattr(y, 'shape', ()))}", after=True)
                     raise Stop()
